@@ -58,12 +58,22 @@ theorem NoPend_gstep {g g' : GDir} {s' : St} {db db' : DB} (h : NoPend (logOf g)
 
 /-! ## the merge directory -/
 
-def MS0 (w : World) (dir : String) (g : GDir) : Prop :=
-  plan w dir = none ∨ ∃ n gm vis, MergeOutB w dir g n gm vis
+/-- no merge directory, or one without a marker (what a `Merge` that reported an error leaves) -/
+def NoMarker (w : World) (dir : String) : Prop := ∀ md, w.get (mergeDirName dir) = some md → md.marker = none
 
-theorem plan_congr {w w' : World} {dir : String} (h : w'.get (mergeDirName dir) = w.get (mergeDirName dir)) :
-    plan w' dir = plan w dir := by
-  unfold plan; rw [h]
+def MS0 (w : World) (dir : String) (g : GDir) : Prop :=
+  NoMarker w dir ∨ ∃ n gm vis, MergeOutB w dir g n gm vis
+
+theorem NoMarker.plan {w : World} {dir : String} (h : NoMarker w dir) : plan w dir = none := by
+  cases hm : w.get (mergeDirName dir) with
+  | none => exact plan_none_of_no_dir hm
+  | some md => exact plan_none_of_no_marker hm (h md hm)
+
+theorem NoMarker.congr {w w' : World} {dir : String} (h : NoMarker w dir)
+    (hw : w'.get (mergeDirName dir) = w.get (mergeDirName dir)) : NoMarker w' dir := by
+  intro md hmd
+  rw [hw] at hmd
+  exact h md hmd
 
 theorem MergeOutB.le_active {w : World} {dir : String} {s : St} {db : DB} {g : GDir} {n : Nat} {gm vis : GDir}
     (h : MergeOutB w dir g n gm vis) (hf : Files s db g) : n ≤ db.activeId := by
@@ -89,7 +99,7 @@ theorem MS0.step {w w' : World} {dir : String} {g g' : GDir} {s0 s' : St} {db db
     (h : MS0 w dir g) (hf : Files s0 db g) (hg : GStep P db g s' db' g')
     (hw : w'.get (mergeDirName dir) = w.get (mergeDirName dir)) : MS0 w' dir g' := by
   rcases h with h | ⟨n, gm, vis, h⟩
-  · exact Or.inl (by rw [plan_congr hw]; exact h)
+  · exact Or.inl (h.congr hw)
   · exact Or.inr ⟨n, gm, vis, h.grown hg.grown (h.le_active hf) hw⟩
 
 /-! ## the invariant with an empty batch slot -/
@@ -113,8 +123,8 @@ theorem HInv0_fresh (dir : String) (cfg : Cfg) (h : cfg.Valid) :
   rw [openDB_fresh dir cfg h]
   refine ⟨rfl, _, _, rfl, rfl, Inv_fresh dir cfg, ?_, Or.inl ?_, ?_⟩
   · intro k; simp only [absGet, Index.get]
-  · apply plan_none_of_no_dir
-    simp only [World.get, if_neg (mergeDirName_ne dir)]
+  · intro md hmd
+    simp [World.get, if_neg (mergeDirName_ne dir)] at hmd
   · intro id; rfl
 
 theorem put0 {dir : String} {s : St} {m : BSpec} (h : HInv0 dir s m) (k v : ByteArray)
@@ -196,7 +206,10 @@ theorem merge0 {dir : String} {s : St} {m : BSpec} (h : HInv0 dir s m) (order : 
     exact Or.inr ⟨_, gm, vis, MergeOutW.toB hmo h2.asc hnp⟩
   · obtain ⟨md, hmd, hmk⟩ := h5 e he
     rw [hd] at hmd
-    exact Or.inl (plan_none_of_no_marker hmd hmk)
+    refine Or.inl (fun md' hmd' => ?_)
+    rw [hmd] at hmd'
+    cases hmd'
+    exact hmk
 
 /-! ## restart: `Close`, then `Open` of the same directory -/
 
@@ -274,8 +287,9 @@ theorem Matches_mem_right : ∀ {data : List (Nat × FileSt)} {g : GDir}, Matche
     4 GiB (the ids are below the marker id, which is a `uint32` by `MergeOutB.small`) -/
 theorem HintFits_of_sizes {w : World} {dir : String} {g : GDir} {n : Nat} {gm vis : GDir}
     (h : MergeOutB w dir g n gm vis)
-    (hsz : ∀ md, w.get (mergeDirName dir) = some md → ∀ x ∈ md.data, x.2.bytes.size < 2 ^ 32) : HintFits gm := by
-  obtain ⟨md, hmd, hmm, _, _⟩ := h.mdir
+    (hsz : ∀ md, w.get (mergeDirName dir) = some md → md.marker ≠ none → ∀ x ∈ md.data, x.2.bytes.size < 2 ^ 32) :
+    HintFits gm := by
+  obtain ⟨md, hmd, hmm, _, hmk⟩ := h.mdir
   apply HintFits_of_small
   intro x hx
   constructor
@@ -287,26 +301,26 @@ theorem HintFits_of_sizes {w : World} {dir : String} {g : GDir} {n : Nat} {gm vi
     omega
   · obtain ⟨y, hy, e⟩ := Matches_mem_right hmm x hx
     rw [← e]
-    exact hsz md hmd y hy
+    exact hsz md hmd (by rw [hmk]; simp) y hy
 
 /-- **restart from any state of the invariant**, under any valid configuration: both calls succeed,
     the mapping is unchanged, afterwards nothing is adoptable any more -/
 theorem restart0 {dir : String} {s : St} {m : BSpec} (h : HInv0 dir s m) (cfg' : Cfg)
     (hcfg : cfg'.Valid)
-    (hsz : ∀ md, s.world.get (mergeDirName dir) = some md → ∀ x ∈ md.data, x.2.bytes.size < 2 ^ 32) :
+    (hsz : ∀ md, s.world.get (mergeDirName dir) = some md → md.marker ≠ none →
+      ∀ x ∈ md.data, x.2.bytes.size < 2 ^ 32) :
     (close s).2 = .ok ∧ (openDB (close s).1 dir cfg').2 = .ok ∧ HInv0 dir (openDB (close s).1 dir cfg').1 m := by
   obtain ⟨db, g, hs, hd, hi, habs, hms, hfr⟩ := h
   subst hd
-  rcases hms with hplan | ⟨n, gm, vis, hmo⟩
-  · obtain ⟨hc, s', db', hopen, hs', hd', habs', hi', hw⟩ := restart_scan cfg' hs hi hplan hcfg
+  rcases hms with hnm | ⟨n, gm, vis, hmo⟩
+  · obtain ⟨hc, s', db', hopen, hs', hd', habs', hi', hw⟩ := restart_scan cfg' hs hi hnm.plan hcfg
     rw [hopen]
-    exact ⟨hc, rfl, db', g, hs', hd', hi', fun k => by rw [habs' k, habs k],
-      Or.inl (by rw [plan_congr hw]; exact hplan), hfr⟩
+    exact ⟨hc, rfl, db', g, hs', hd', hi', fun k => by rw [habs' k, habs k], Or.inl (hnm.congr hw), hfr⟩
   · have hF := HintFits_of_sizes hmo hsz
     obtain ⟨hc, s', db', hopen, hs', hd', habs', hi', hw, hnp⟩ := restart_adopt cfg' hs hi hmo hF hcfg
     rw [hopen]
     exact ⟨hc, rfl, db', _, hs', hd', hi', fun k => by rw [habs' k, habs k],
-      Or.inl (plan_none_of_no_dir hw), hnp hfr⟩
+      Or.inl (fun md hmd => by rw [hw] at hmd; cases hmd), hnp hfr⟩
 
 /-! ## the invariant with a live batch -/
 
@@ -454,7 +468,8 @@ theorem mergeQ {dir : String} {s : St} {m : BSpec} {dead : Bool} (h : HInvQ dir 
 
 theorem restartQ {dir : String} {s : St} {m : BSpec} {dead : Bool} (h : HInvQ dir s m dead)
     (cfg' : Cfg) (hcfg : cfg'.Valid)
-    (hsz : ∀ md, s.world.get (mergeDirName dir) = some md → ∀ x ∈ md.data, x.2.bytes.size < 2 ^ 32) :
+    (hsz : ∀ md, s.world.get (mergeDirName dir) = some md → md.marker ≠ none →
+      ∀ x ∈ md.data, x.2.bytes.size < 2 ^ 32) :
     (close s).2 = .ok ∧ (openDB (close s).1 dir cfg').2 = .ok ∧
     HInvQ dir (openDB (close s).1 dir cfg').1 m false := by
   have := restart0 h.1 cfg' hcfg hsz
